@@ -163,10 +163,10 @@ pub const EDIT_SEEDS: &[&str] = &[
     "local o = { a : { b : [ 1 ] } } ; o . a . b [ 0 ]",
     "- 1 + ! true || ~ 2 & 3 | 4 ^ 5 << 1 >> 1 % 2",
     "1 == 1 && 2 != 3 && 1 <= 2 && 2 >= 1 && \"a\" in { a : 1 }",
-    "std . length ( [ 1 , 2 ] ) + $ . a",
+    "std . length ( [ 1 , 2 ] ) + std . length ( \"ab\" )",
     "{ a : $ . b , b : self . c , c : 1 } . a",
-    "import \"x\" + importstr \"y\" + importbin \"z\"",
-    "||| \n a \n ||| + @\"q\" + 'r'",
+    "[ import \"x\" , importstr \"y\" , importbin \"z\" ]",
+    "|||\n\ta\n||| + @\"q\" + 'r'",
     "{ a : 1 } { b : 2 } { c : 3 }",
     "local f = function ( a , b ) [ a , b ] ; f ( b = 1 , a = 2 )",
     "{ assert true , a : 1 } . a",
@@ -409,6 +409,39 @@ pub fn run(ctx: &Ctx) -> i32 {
         total.extra.insert(format!("token_sequences_len{len}"), json!(r.states));
         total.merge(r);
     }
+    // 2a. the lexer's literal corpora (every Unicode scalar value in every literal form, all
+    // invalid UTF-8 sequences over 19 border bytes, number and operator texts, text blocks)
+    // through the whole pipeline
+    {
+        let mut cases: Vec<Vec<u8>> = Vec::new();
+        cases.extend(c14::string_cases(ctx.quick()));
+        cases.extend(c14::number_cases(if ctx.quick() { 4 } else { 5 }));
+        cases.extend(c14::operator_cases());
+        cases.extend(c14::textblock_cases(if ctx.quick() { 2 } else { 3 }));
+        let r = util::par_forked(&cfg, 128, |sh| {
+            let mut rep = Report::new();
+            let mut start = 0usize;
+            while start < cases.len() {
+                let arena = Arena::new();
+                let mut p = Program::new(&arena);
+                let mut next = cases.len();
+                for (ci, c) in cases.iter().enumerate().skip(start) {
+                    if !sh.mine(ci as u64) || !sh.begin_case(ci as u64, &|| String::from_utf8_lossy(c).into_owned()) {
+                        continue;
+                    }
+                    rep.states += 1;
+                    if classify(&mut p, c, &mut rep, "literal").is_none() {
+                        next = ci + 1;
+                        break;
+                    }
+                }
+                start = next;
+            }
+            rep
+        });
+        total.extra.insert("literal_texts".into(), json!(r.states));
+        total.merge(r);
+    }
     // 2b. every single edit (token or fragment insertion, deletion, replacement, swap) of the seed programs
     let r = util::par_forked(&cfg, 128, |sh| edit_sweep(!ctx.quick(), sh));
     total.extra.insert("edited_programs".into(), json!(r.states));
@@ -475,7 +508,8 @@ pub fn run(ctx: &Ctx) -> i32 {
     if std::path::Path::new(&cli::binary()).exists() {
         let reprs: Vec<(String, String)> = total.extra.iter().filter(|(k, _)| k.starts_with("repr:")).map(|(k, v)| (k.clone(), v.as_str().unwrap_or("").to_string())).collect();
         for (class, src) in &reprs {
-            let o = cli::run(&["-e".into(), src.clone()], None, Stdout::Capture, &[], None);
+            // (an argument cannot carry a NUL byte: such a source goes through stdin)
+            let o = if src.contains('\0') { cli::run(&["-".into()], Some(src.as_bytes()), Stdout::Capture, &[], None) } else { cli::run(&["-e".into(), src.clone()], None, Stdout::Capture, &[], None) };
             total.evaluations += 1;
             let stderr = String::from_utf8_lossy(&o.stderr);
             let ok_status = matches!(o.code, Some(0 | 1 | 2)) && o.signal.is_none();
@@ -513,7 +547,7 @@ pub fn run(ctx: &Ctx) -> i32 {
         ctx,
         LevelInfo {
             level: "exploration",
-            rule: "whole pipeline (load, evaluate, manifest; error spans checked) on: all byte strings up to length 3/4 over a 54-symbol alphabet; all token sequences up to length 3/4 over 60 tokens; every single edit (insertion, deletion, replacement by each of 63 tokens and member-/clause-sized fragments, adjacent swap; thorough: plus a second deletion) of 25 well-formed seed programs; corpus programs up to the node bound; every function of std x every argument tuple from a boundary pool (40 values for arity <=2, 14 for arity 3, 7 above; quick halves the pools); 18 recursive syntactic forms at nesting depths 10..10^4(10^5), each in its own process; the real binary on one representative of every outcome class and on the nesting forms. Outcome classifier: value / Lex|Parse|Analyze error / EvalError only - a panic, abort or signal is a violation. distinct+nontrivial = distinct (function, outcome class) / sweep shards".into(),
+            rule: "whole pipeline (load, evaluate, manifest; error spans checked) on: all byte strings up to length 3/4 over a 54-symbol alphabet; all token sequences up to length 3/4 over 60 tokens; the lexer corpora of C14 (every Unicode scalar value in every literal form, all invalid UTF-8 sequences of length <=3/4 over 19 border bytes in strings, verbatim strings, comments and text blocks, number and operator texts, text-block layouts); every single edit (insertion, deletion, replacement by each of 63 tokens and member-/clause-sized fragments, adjacent swap; thorough: plus a second deletion) of 25 well-formed seed programs; corpus programs up to the node bound; every function of std x every argument tuple from a boundary pool (40 values for arity <=2, 14 for arity 3, 7 above; quick halves the pools); 18 recursive syntactic forms at nesting depths 10..10^4(10^5), each in its own process; the real binary on one representative of every outcome class and on the nesting forms. Outcome classifier: value / Lex|Parse|Analyze error / EvalError only - a panic, abort or signal is a violation. distinct+nontrivial = distinct (function, outcome class) / sweep shards".into(),
             assumptions: vec!["memory exhaustion and the per-case time cap are resource outcomes, not verdicts".into(), "values outside the pools are not covered".into()],
         },
         total,
